@@ -40,6 +40,11 @@ checks["C06"]=dict(
    note="Trusted: the contract table in c06.go (transcribed from the property and the passes' doc comments), go/types. Does not decide that a pass's rewrite is correct, only that it is scheduled and applied at every depth; identifier rules of target languages are not modelled.",
    technique="pass-chain contract table over type-resolved composite literals + traversal-reach analysis of visitor callbacks and recursive kind dispatchers",
    design="§3.C06")
+checks["C15"]=dict(
+   text="Structural necessary conditions per user-configurable schema transformation: the computed IR write set (direct stores of reachable methods + interprocedural effects, minus identity rebuilds and trail bookkeeping) is contained in the documented write set; every effect and error return is control-dependent on the transformation's selector, so a missing target is the identity; selector helpers have the documented shape (package exact, names case-insensitive); name-changing transformations rewrite all reference-bearing positions under the same bare selector test; visitor state is reset per schema; no store through shared payloads.",
+   note="Trusted: the documented write-set table in c15.go (transcribed from docs/reference/schema_transformations.md and doc comments), go/types, the effects engine's syntactic access paths. Does not decide that the written value is the documented one, nor ordering effects beyond the ordered-map rules of C19.",
+   technique="interprocedural write-set containment against a documented table + control-dependence (guardedness) lint + selector-shape checks",
+   design="§3.C15")
 pending = {}
 props = [json.loads(l) for l in open(os.path.join(here, "properties.jsonl"))]
 m = {
